@@ -69,8 +69,8 @@ func (t *T) size() int {
 	n := 1 + len(t.S)
 	for i, c := range t.C {
 		n += c.size()
-		if i < len(t.Keys) {
-			n += len(t.Keys[i])
+		if i < len(t.Keys) && t.Keys[i] != string(rune('a'+i)) {
+			n += 1 + len(t.Keys[i]) // a neutral key ("a", "b", ...) costs nothing
 		}
 	}
 	return n
